@@ -17,6 +17,7 @@ DOC = {
     'numpy.random.shuffle': 'np.random.shuffle(x): in-place application of an ARBITRARY permutation (havoc)',
     'numpy.random.randint': 'np.random.randint(lo,hi,size=m): ANY integer array of length m with lo <= entries < hi (havoc)',
     'numpy.array': 'np.array(list): same elements',
+    'numpy.kron': 'np.kron(a,b) of 1-D arrays: entry t = a[t div len(b)] * b[t mod len(b)]',
     'numpy.zeros': 'np.zeros / np.empty / np.ones: fresh array of the given shape',
     'copy.deepcopy': 'deepcopy(x): fresh object equal to x',
     'tqdm.trange': 'tqdm.trange(n) iterates like range(n)',
@@ -198,7 +199,34 @@ def install(E):
         return s
     L['numpy.random.randint'] = np_randint
 
+    def np_kron(E, a, b):
+        def as1d(v):
+            if isinstance(v, ArrV) and len(v.shape) == 1 and not v.clauses and v.fill in (0, 1):
+                n = v.shape[0] if z3.is_expr(v.shape[0]) else z3.IntVal(v.shape[0])
+                return n, (lambda t, f=v.fill: f)
+            if isinstance(v, (SeqV, RangeV)):
+                s = E.as_seq(v)
+                return s.zlen(), (lambda t, s=s: E.seq_elem(s, t))
+            return None
+        pa, pb = as1d(a), as1d(b)
+        if pa is None or pb is None:
+            return E.app('numpy.kron', [a, b], tag='ndarray')
+        (la, ea), (lb, eb) = pa, pb
+        E.used_lib.add('numpy.kron')
+
+        def elem(t):
+            if z3.is_int_value(lb) and lb.as_long() > 0:
+                q, r = t / lb, t % lb
+            else:
+                q, r = z3.Int(fresh_name('q')), z3.Int(fresh_name('r'))
+                E.fact(z3.Implies(z3.And(lb > 0, t >= 0), z3.And(t == q * lb + r, r >= 0, r < lb, q >= 0)))
+            return E.binop('*', ea(q), eb(r))
+        return SeqV(length=la * lb, elem=elem, kind='array', esort='int')
+    L['numpy.kron'] = np_kron
+
     def np_array(E, x, *a, **kw):
+        if isinstance(x, RangeV) and not a and not kw:
+            x = E.as_seq(x)
         if isinstance(x, SeqV) and not a and not kw:
             if x.items is not None and any(isinstance(i, (SeqV, tuple)) for i in x.items):
                 return E.app('numpy.array', [x], tag='ndarray')
